@@ -69,7 +69,13 @@ RunVerdict(r) ==
       <<tag \o ":automorphism-count",
           \A k \in 1..m : r.aut_naut[k] = Cardinality(Autos(vplain[k]))>>,
       <<tag \o ":automorphism-orbits",
-          \A k \in 1..m : Blocks(r.aut_orbits[k]) = {{r.align_plain[k][x] : x \in o} : o \in Orbits(vplain[k])}>>
+          \A k \in 1..m : Blocks(r.aut_orbits[k]) = {{r.align_plain[k][x] : x \in o} : o \in Orbits(vplain[k])}>>,
+      (* the colour-refinement canonicaliser documents itself as approximate: it is only held to
+         "canonical graph isomorphic to the view" and "its cells never split a true orbit" *)
+      <<tag \o ":wl-canonical-graph-not-isomorphic-to-its-view",
+          \A k \in 1..m : IsIso(view[k], r.wl_cg[k])>>,
+      <<tag \o ":wl-cells-split-a-true-orbit",
+          \A k \in 1..m : Coarsens(Blocks(r.wl_orbits[k]), {{r.align[k][x] : x \in o} : o \in Orbits(view[k])})>>
    >>)
 
 RECURSIVE RunsFrom(_, _)
